@@ -42,13 +42,13 @@ Theorem C07_bytes_are_enqueued_responses : forall ops w, WInv w -> wops_ok w ops
 Proof. exact wrun_prefix. Qed.
 
 (* the yields of a read carry the descriptor and the instance of the connection that was read *)
-Check ((fun BUF w g => eq_refl) : forall BUF w g, handle_event BUF w (EvIn g) =
+Check ((fun BUF w g k => eq_refl) : forall BUF w g k, handle_event BUF w (EvIn g k) =
   match alookup g (w_conns w) with
   | None => inr EPanic
   | Some x =>
       let cl := client_of w (sc_client x) in
       let room := (BUF - length (c_win (sc_conn x)))%nat in
-      let n := Nat.min room (length (k_tosrv cl)) in
+      let n := read_amount k room (length (k_tosrv cl)) in
       match cc_read BUF x (RData (firstn n (k_tosrv cl)) []) with
       | inr err => inr err
       | inl (y, reqs) =>
@@ -110,7 +110,7 @@ Theorem C07_yield_identity : forall BUF, (2 <= BUF)%nat -> N.of_nat BUF < U32_LI
   forall w toks e w' ys beta, Inv BUF w toks -> handle_event BUF w e = inl (w', ys) -> bound beta w ->
   exists beta', (forall g, (g < w_nextg w)%nat -> beta' g = beta g) /\ bound beta' w' /\
     (w_nextg w <= w_nextg w')%nat /\
-    forall fd g r, In (fd, g, r) ys -> exists x, alookup fd (w_conns w) = Some x /\ sc_gid x = g /\ e = EvIn fd.
+    forall fd g r, In (fd, g, r) ys -> exists x, alookup fd (w_conns w) = Some x /\ sc_gid x = g /\ exists kk, e = EvIn fd kk.
 Proof. exact event_binding. Qed.
 (* bytes enter the receive queue of client c only from the unsent output of a connection whose
    client is c (a prefix of it), or as the 503 refusal of c itself; in any world, for any event *)
@@ -129,7 +129,7 @@ Proof. exact respond_delivery. Qed.
    connection (100 Continue, 400) and (b) the response supplied with a token, on the entry the token
    names, dropped if that entry is closed *)
 Theorem C07_read_adds_own_replies_only : forall BUF, (2 <= BUF)%nat -> N.of_nat BUF < U32_LIMIT ->
-  forall w toks fd w' ys, Inv BUF w toks -> evt_ok w (EvIn fd) -> handle_event BUF w (EvIn fd) = inl (w', ys) ->
+  forall w toks fd kk w' ys, Inv BUF w toks -> evt_ok w (EvIn fd kk) -> handle_event BUF w (EvIn fd kk) = inl (w', ys) ->
   exists x y gen, alookup fd (w_conns w) = Some x /\ alookup fd (w_conns w') = Some y /\
     unsent (sc_conn y) = unsent (sc_conn x) ++ flat_map serialize gen /\ Forall server_generated gen /\
     forall fd0, fd0 <> fd -> alookup fd0 (w_conns w') = alookup fd0 (w_conns w).
